@@ -54,7 +54,7 @@ def run(rep):
     rep.trusted_base = list(STD_TRUSTED) + ['abstract circuit model vlib/pyvc/circuit_model.py']
     for a in STD_ASSUME:
         rep.assume(a)
-    rep.assume('composition by add_circuit/connect_circuit (C10) and the final OR/IFF gate of build_miter are covered by the bounded stand-in only')
+    rep.assume('the whole build_miter (composition by add_circuit / connect_circuit with named blocks, pairwise xor, final OR / IFF) is proved only for pairs of one-gate circuits with symbolic gate types (all pairs of two-input functions, five output shapes, two labelings); miters of arbitrary circuits are covered by the bounded stand-in only')
     it = new_interp()
     pv = Prover(rep, it, 'C13')
     for n in (1, 2, 3):
@@ -62,9 +62,15 @@ def run(rep):
         pv.run_contract(HostGadget(GEN, 'add_pairwise_xor', 2 * n, spec_pxor(n), label=f'add_pairwise_xor/n{n}', shape=(n, n)))
     it.contracts.clear()
     pv.run_contract(MiterShapes())
+    it.contracts.clear()
+    it.loop_specs.clear()
+    from . import c13_small
+    for m_ in (1, 2, 3, 6, 7):
+        pv.run_contract(c13_small.SmallMiter(m_))
+        pv.run_contract(c13_small.SmallMiter(m_, same_labels_permuted=True))
     a, b = z3.Bools('a b')
     canary(rep, pv, 'C13/canary/xor-is-or', [], z3.Xor(a, b) == z3.Or(a, b))
     refuted = pv.discharge(env.NPROC)
     finish_refuted(rep, pv, refuted)
     run_bounded(rep, 'C13', quick)
-    rep.extra['explanation'] = 'pairwise-xor stage and shape rejection proved from the real source; the composed miter is checked by the bounded stand-in.'
+    rep.extra['explanation'] = 'pairwise-xor stage, shape rejection and the whole miter of one-gate circuits with symbolic gate types proved from the real source; miters of arbitrary circuits: bounded stand-in.'
